@@ -12,6 +12,7 @@ import (
 	"os"
 	"strings"
 	"sync"
+	"sync/atomic"
 	"syscall"
 
 	"verifharness/sx"
@@ -153,10 +154,30 @@ func main() {
 		}
 		meta["buffer_filling_datagrams"] = fmt.Sprintf("%d kernel replies of exactly / nearly the read buffer's size quoted back in full", exact)
 		meta["netlink_route"] = fmt.Sprintf("available, %d requests quoted back by the kernel", okEcho)
-		// concurrent senders
-		const G, M = 8, 200
+		// concurrent senders, one of which keeps failing (a 1 MiB message: EMSGSIZE): a failed Send must not disturb the numbers the others get
+		const G, M = 8, 1500
 		per := make([][]string, G)
 		var wg sync.WaitGroup
+		stopFail := make(chan struct{})
+		var failed int64
+		var fwg sync.WaitGroup
+		for f := 0; f < 3; f++ {
+			fwg.Add(1)
+			go func() {
+				defer fwg.Done()
+				big := make([]byte, 300<<10)
+				for {
+					select {
+					case <-stopFail:
+						return
+					default:
+					}
+					if _, err := rc.Send(syscall.NetlinkMessage{Header: syscall.NlMsghdr{Type: 1018, Flags: syscall.NLM_F_REQUEST}, Data: big}); err != nil {
+						atomic.AddInt64(&failed, 1)
+					}
+				}
+			}()
+		}
 		for g := 0; g < G; g++ {
 			wg.Add(1)
 			go func(g int) {
@@ -168,11 +189,14 @@ func main() {
 			}(g)
 		}
 		wg.Wait()
+		close(stopFail)
+		fwg.Wait()
 		parts := make([]string, G)
 		for g := range per {
 			parts[g] = "[" + strings.Join(per[g], "; ") + "]"
 		}
-		out.Case("NConc ["+strings.Join(parts, "; ")+"]", map[string]interface{}{"goroutines": G, "sends_each": M}, "concurrent-send", true)
+		out.Case("NConc ["+strings.Join(parts, "; ")+"]", map[string]interface{}{"goroutines": G, "sends_each": M, "failed_sends_alongside": failed}, "concurrent-send", true)
+		meta["failing_sends_during_concurrent_sends"] = failed
 		rc.Close()
 		// concurrent senders, on the wire: every request is quoted back by the kernel, so the datagram that carries the payload of
 		// goroutine g's i-th Send must carry the sequence number that Send returned (and nothing of another caller's message)
